@@ -78,11 +78,11 @@ func (in *Interp) intrinsic(fn *ssa.Function, args []Value) (Value, bool) {
 	case name == "zzAssert":
 		tag, _ := in.cStr(args[0])
 		c := args[1].(*smt.Term)
-		in.Obls = append(in.Obls, &Obligation{Kind: "assert", Tag: tag, Pos: in.posStr(in.curPos), Guard: st.And(in.Valid, in.Guard()), Cond: c})
+		in.AddObligation(&Obligation{Kind: "assert", Tag: tag, Pos: in.posStr(in.curPos), Guard: in.Guard(), Cond: c})
 		return &TupleVal{}, true
 	case name == "zzReach":
 		tag, _ := in.cStr(args[0])
-		in.Obls = append(in.Obls, &Obligation{Kind: "reach", Tag: tag, Pos: in.posStr(in.curPos), Guard: st.And(in.Valid, in.Guard()), Cond: st.T})
+		in.AddObligation(&Obligation{Kind: "reach", Tag: tag, Pos: in.posStr(in.curPos), Guard: in.Guard(), Cond: st.T})
 		return &TupleVal{}, true
 	case name == "zzExport":
 		tag, _ := in.cStr(args[0])
@@ -148,12 +148,19 @@ type Verdict struct {
 // Discharge decides all recorded obligations with the interpreter's solver.
 // assert: unsat(Guard ∧ ¬Cond) = holds. reach: sat(Guard) = reachable.
 // panic/unwind: unsat(Guard) = holds.
-func (in *Interp) Discharge() []Verdict {
-	var out []Verdict
-	for _, o := range in.Obls {
+func (in *Interp) Discharge() []Verdict { return in.Verdicts }
+
+// AddObligation records an obligation and decides it at once, under the
+// assumptions made so far (which are asserted in the solver).
+func (in *Interp) AddObligation(o *Obligation) {
+	in.Obls = append(in.Obls, o)
+	in.Verdicts = append(in.Verdicts, in.decide(o))
+}
+
+func (in *Interp) decide(o *Obligation) Verdict {
+	{
 		v := Verdict{Obl: o}
-		q0, s0 := in.Sol.Queries, in.Sol.Seconds
-		_ = q0
+		s0 := in.Sol.Seconds
 		switch o.Kind {
 		case "reach":
 			switch in.Sol.Check(o.Guard) {
@@ -165,8 +172,7 @@ func (in *Interp) Discharge() []Verdict {
 				v.Result = "inconclusive"
 			}
 		default:
-			neg := in.St.And(o.Guard, in.St.Not(o.Cond))
-			switch in.Sol.Check(neg) {
+			switch in.Sol.Check(o.Guard, in.St.Not(o.Cond)) {
 			case smt.Unsat:
 				v.Result = "holds"
 			case smt.Sat:
@@ -182,9 +188,8 @@ func (in *Interp) Discharge() []Verdict {
 			}
 		}
 		v.Secs = in.Sol.Seconds - s0
-		out = append(out, v)
+		return v
 	}
-	return out
 }
 
 // RunHarness interprets the named harness function (after running the init of
@@ -215,3 +220,22 @@ func (in *Interp) RunHarness(fn *ssa.Function, args []Value, inits ...string) (e
 }
 
 var _ types.Type
+
+// ---- exported helpers for check-specific hooks ----
+
+func (in *Interp) FormatInt(t *smt.Term, base int, signed bool) Value {
+	return in.formatInt(t, base, signed)
+}
+func (in *Interp) Feasible(c *smt.Term) bool           { return in.feasible(c) }
+func (in *Interp) Tuple(vs ...Value) Value             { return in.tuple(vs...) }
+func (in *Interp) MkStr(b []*smt.Term) *StrVal         { return in.mkStr(b) }
+func (in *Interp) StrBytes(s *StrVal) []*smt.Term      { return in.strBytes(s) }
+func (in *Interp) Merge(c *smt.Term, a, b Value) Value { return in.merge(c, a, b) }
+func (in *Interp) Unsupported(msg string) *Unsupported { return in.unsupported(msg) }
+func (in *Interp) NilError() Value                     { return &IfaceVal{} }
+func (in *Interp) Assume(c *smt.Term)                  { in.assume(c) }
+func (in *Interp) PanicIf(c *smt.Term, kind string)    { in.panicIf(c, kind) }
+func (in *Interp) Load(p Value) Value                  { return in.load(p) }
+func (in *Interp) Equal(a, b Value) *smt.Term          { return in.equal(a, b) }
+func (in *Interp) MkSlice(e []Value) *SliceVal         { return in.mkSlice(e) }
+func (in *Interp) SliceElems(s *SliceVal) []Value      { return in.sliceElems(s) }
